@@ -2199,7 +2199,7 @@ impl CharacterDataMut for XmlText {
         if self.length() < offset {
             Err(error::DomException::IndexSizeErr)?
         } else {
-            self.data.borrow_mut().delete(offset, count);
+            self.data.borrow_mut().delete(offset, count)?;
             Ok(())
         }
     }
@@ -2354,7 +2354,7 @@ impl CharacterDataMut for XmlComment {
         if self.length() < offset {
             Err(error::DomException::IndexSizeErr)?
         } else {
-            self.data.borrow_mut().delete(offset, count);
+            self.data.borrow_mut().delete(offset, count)?;
             Ok(())
         }
     }
@@ -2538,7 +2538,7 @@ impl CharacterDataMut for XmlCDataSection {
         if self.length() < offset {
             Err(error::DomException::IndexSizeErr)?
         } else {
-            self.data.borrow_mut().delete(offset, count);
+            self.data.borrow_mut().delete(offset, count)?;
             Ok(())
         }
     }
